@@ -103,7 +103,7 @@ func (f *frame) enterLoop(li *loopInfo, b *ssa.BasicBlock, pc *Term, st State) (
 			// only the visited set of a range that lives inside this loop
 			st[k] = c.fresh(k, st[k].Sort)
 		}
-		if strings.HasPrefix(k, "ghost$") && ghostsInLoop[strings.TrimPrefix(k, "ghost$")] {
+		if strings.HasPrefix(k, "ghost$") && ghostsInLoop[strings.TrimPrefix(k, "ghost$")] && !isMarker(st[k]) {
 			st[k] = c.fresh(k, st[k].Sort)
 		}
 	}
@@ -295,6 +295,7 @@ func verifyFunc(prog *Program, specs *SpecSet, sp *FuncSpec) (res *FuncResult) {
 	vo := f.emit("vacuity", f.oblName("requires-satisfiable"), True, False, fn.Pos(), nil)
 	vo.Expect = "sat"
 	retPc, results, out := f.run(True, st, args)
+	f.checkSiteAnchors()
 	if isFalse(retPc) {
 		f.warnf("no return point reachable")
 	}
@@ -336,8 +337,11 @@ func verifyFunc(prog *Program, specs *SpecSet, sp *FuncSpec) (res *FuncResult) {
 				allowed[h] = true
 			}
 		}
+		for _, g := range specGhostWrites(sp) {
+			allowed["ghost$"+g] = true
+		}
 		for _, h := range sortedKeys(out) {
-			if allowed[h] || h == "$alloc" || strings.HasPrefix(h, "$visited") || h == "$epoch" || strings.HasPrefix(h, "ghost$") {
+			if allowed[h] || h == "$alloc" || strings.HasPrefix(h, "$visited") || h == "$epoch" {
 				continue
 			}
 			if out[h] == loopMarker {
